@@ -288,3 +288,160 @@ def U_D_games():
 def game_of(players, tl, finals, rewards):
     return dict(rewards=list(rewards), players=list(players), transition_list=[list(r) for r in tl],
                 final_states=list(finals))
+
+
+# ------------------------------------------------------------------------- families added after the second seeded round
+
+def _renumber(game, perm):
+    """perm[s] = new index of old state s (perm[0] == 0)"""
+    n = len(game["players"])
+    players, rewards, tl = [None] * n, [None] * n, [None] * n
+    for s in range(n):
+        players[perm[s]] = game["players"][s]
+        rewards[perm[s]] = game["rewards"][s]
+        tl[perm[s]] = [(lab, perm[t]) for lab, t in game["transition_list"][s]]
+    return dict(rewards=rewards, players=players, transition_list=tl, final_states=[perm[f] for f in game["final_states"]])
+
+
+def _reverse_perm(n):
+    return [0] + list(range(n - 1, 0, -1))
+
+
+def U_E_games():
+    """'epsilon' games: reachability values in (0, 1e-6] and just above.  A focus state (probabilistic or Player 1) with
+    1-3 successors from {T (wins with tiny probability t), L (lose), V (wins surely)}, as state 0 or behind an entry
+    state, numbered ascending and descending (the sweep order decides whether a tiny value is seen before the loop stops)."""
+    games = []
+    for t in (2e-7, 4e-7, 9e-7, 3e-6):
+        for d in (1, 2, 3):
+            for tg in itertools.product("TLV", repeat=d):
+                for kind in (PR, P1):
+                    for vec in (VECT_F[d] if kind == PR else [None]):
+                        for placement in F_PLACEMENTS:
+                            # states: [entry] focus T V L W
+                            names = (["entry"] if placement != "direct" else []) + ["focus", "T", "V", "L", "W"]
+                            idx = {nme: i for i, nme in enumerate(names)}
+                            if kind == PR:
+                                row = [(vec[i], idx[x]) for i, x in enumerate(tg)]
+                            else:
+                                row = [(ACTIONS[i], idx[x]) for i, x in enumerate(tg)]
+                            st = {"focus": (kind, 1, row), "T": (PR, 2, [(t, idx["W"]), (1 - t, idx["L"])]),
+                                  "V": (PR, 0, [(1, idx["W"])]), "L": (PR, 0, [(1, idx["L"])]), "W": (PR, 0, [(1, idx["W"])])}
+                            if placement == "behindP2":
+                                st["entry"] = (P2, 0, [("x", idx["focus"]), ("y", idx["V"])])
+                            elif placement == "behindPR":
+                                st["entry"] = (PR, 0, [(0.5, idx["focus"]), (0.5, idx["V"])])
+                            elif placement == "behindP1":
+                                st["entry"] = (P1, 0, [("x", idx["focus"]), ("y", idx["L"])])
+                            g = dict(rewards=[st[n_][1] for n_ in names], players=[st[n_][0] for n_ in names],
+                                     transition_list=[list(st[n_][2]) for n_ in names], final_states=[idx["W"]])
+                            games.append(g)
+                            games.append(_renumber(g, _reverse_perm(len(names))))
+    return games
+
+
+def U_C_games():
+    """chains: s_0 .. s_4, each either continues to the next chain state (the last one to win) or takes a shortcut X in
+    {win, mid (1/2 win)}; owners P1 / P2 / probabilistic (1/2, 1/2); numbered ascending and descending.  Values travel
+    several sweeps along the chain."""
+    games = []
+    K = 5
+    for combo in itertools.product(range(6), repeat=K):
+        # states: s_0..s_4, M, L, W
+        M, L, W = K, K + 1, K + 2
+        players, tl = [], []
+        for i, c in enumerate(combo):
+            kind = (PR, P1, P2)[c % 3]
+            X = (W, M)[c // 3]
+            nxt = i + 1 if i + 1 < K else W
+            if kind == PR:
+                tl.append([(0.5, nxt), (0.5, X)])
+            else:
+                tl.append([(ACTIONS[0], nxt), (ACTIONS[1], X)])
+            players.append(kind)
+        players += [PR, PR, PR]
+        tl += [[(0.5, W), (0.5, L)], [(1, L)], [(1, W)]]
+        g = dict(rewards=[1] * K + [2, 0, 0], players=players, transition_list=tl, final_states=[W])
+        games.append(g)
+        games.append(_renumber(g, _reverse_perm(K + 3)))
+    return games
+
+
+def U_L_games():
+    """large rewards and slowly converging loops: a chooser between a state that collects r per visit on a self-loop with
+    stay probability q and a state with a single large reward; the two totals differ by 5 (far above the tolerance, tiny
+    relative to the values)."""
+    games = []
+    for q in (0.9, 0.99):
+        for r in (100, 1000, 2500.5):
+            total = r / (1 - q)
+            for delta in (-5, 5):
+                for chooser in (P1, P2):
+                    for order in (0, 1):
+                        A = (PR, r, [(q, 1 + order), (1 - q, 3)])       # self-loop; index fixed below
+                        B = (PR, round(total + delta, 6), [(1, 3)])
+                        cands = [A, B] if order == 0 else [B, A]
+                        # states: 0 chooser, 1, 2 candidates, 3 W
+                        tl = [[(ACTIONS[0], 1), (ACTIONS[1], 2)]]
+                        for k, c in enumerate(cands):
+                            row = [(p, (1 + k) if t != 3 else 3) for p, t in c[2]]
+                            tl.append(row)
+                        tl.append([(1, 3)])
+                        games.append(dict(rewards=[0, cands[0][1], cands[1][1], 0], players=[chooser, PR, PR, PR],
+                                          transition_list=tl, final_states=[3]))
+    return games
+
+
+def U_R_games():
+    """reward ties through different floating-point sums: every candidate reaches the goal surely; expected rewards are
+    0.3 (as 0.1+0.2, 0.3, 0.2+0.1, 0.15+0.15) or 0.6 (0.6, 0.1+0.2+0.3)."""
+    cand = {"A": [(0.1, "R"), (0.2, "R"), (0.7, "Z")], "B": [(0.3, "R"), (0.7, "Z")], "C": [(0.7, "Z"), (0.2, "R"), (0.1, "R")],
+            "D": [(0.15, "R"), (0.15, "R"), (0.7, "Z")], "E": [(0.6, "R"), (0.4, "Z")], "F": [(0.1, "R"), (0.2, "R"), (0.3, "R"), (0.4, "Z")]}
+    games = []
+    for k in (2, 3):
+        for combo in itertools.product(sorted(cand), repeat=k):
+            for chooser in (P1, P2):
+                R, Z, W = k + 1, k + 2, k + 3
+                sym = {"R": R, "Z": Z}
+                tl = [[(ACTIONS[i], 1 + i) for i in range(k)]]
+                for c in combo:
+                    tl.append([(p, sym[t]) for p, t in cand[c]])
+                tl += [[(1, W)], [(1, W)], [(1, W)]]
+                games.append(dict(rewards=[1] + [0] * k + [1, 0, 0], players=[chooser] + [PR] * (k + 3),
+                                  transition_list=tl, final_states=[W]))
+    return games
+
+
+def U_P2_games():
+    """two levels of choice: s0 over {X, Y}, X over {U, V}; U, V, Y win with probability 1/4, 1/2 or 3/4 and carry rewards,
+    so reachability-optimal and reward-optimal actions differ at both levels in every combination."""
+    games = []
+    probs = (0.25, 0.5, 0.75)
+    reward_sets = [list(r) for r in itertools.product((0, 1, 2), repeat=4)]
+    near = [[rx, 3.0000004, 3.0000012, ry] for rx in (0, 1) for ry in (0, 3)] + [[rx, 3.0000012, 3.0000004, ry] for rx in (0, 1) for ry in (0, 3)]
+    for o0 in (P1, P2):
+        for oX in (P1, P2):
+            for pU, pV, pY in itertools.product(probs, repeat=3):
+                for rX, rU, rV, rY in reward_sets + near:
+                    # states: 0 s0, 1 X, 2 U, 3 V, 4 Y, 5 L, 6 W
+                    tl = [[(ACTIONS[0], 1), (ACTIONS[1], 4)], [(ACTIONS[0], 2), (ACTIONS[1], 3)],
+                          [(pU, 6), (1 - pU, 5)], [(pV, 6), (1 - pV, 5)], [(pY, 6), (1 - pY, 5)], [(1, 5)], [(1, 6)]]
+                    games.append(dict(rewards=[0, rX, rU, rV, rY, 0, 0], players=[o0, oX, PR, PR, PR, PR, PR],
+                                      transition_list=tl, final_states=[6]))
+    return games
+
+
+def U_N_games():
+    """near chains: three candidates whose reach values are 0.5, 0.5000004, 0.5000008 (pairwise closer than the tolerance,
+    so no exact-set claim applies) in every order with repetitions: the result must not depend on the order."""
+    vals = (0.5, 0.5000004, 0.5000008)
+    games = []
+    for combo in itertools.product(vals, repeat=3):
+        for chooser in (P1, P2):
+            L, W = 4, 5
+            tl = [[(ACTIONS[i], 1 + i) for i in range(3)]]
+            for v in combo:
+                tl.append([(v, W), (round(1 - v, 7), L)])
+            tl += [[(1, L)], [(1, W)]]
+            games.append(dict(rewards=[0, 1, 5, 50, 0, 0], players=[chooser, PR, PR, PR, PR, PR], transition_list=tl, final_states=[W]))
+    return games
